@@ -63,6 +63,7 @@ class Pool:
                         if not queue or self.errors:
                             break
                         i = queue.pop(0)
+                    t_shard = time.time()
                     proc.stdin.write(json.dumps({'shard': shards[i], 'ctx': self.ctx}) + '\n')
                     proc.stdin.flush()
                     line = proc.stdout.readline()
@@ -75,6 +76,7 @@ class Pool:
                         with self.lock:
                             self.errors.append('shard %s: %s' % (shards[i].get('name'), res.get('error')))
                         break
+                    res['wall_s'] = round(time.time() - t_shard, 2)
                     results[i] = res
             finally:
                 try:
@@ -242,6 +244,9 @@ def main(argv=None):
     print('%s tier=%s seed=%d shards=%d evaluations=%d distinct_nontrivial=%d states=%d transitions=%d violations=%d known=%d wall=%.1fs'
           % (prop, tier, seed, len(shards), agg['evaluations'], agg['distinct_nontrivial'], agg['states'], agg['transitions'],
              unlisted, len(viol) - unlisted, wall))
+    if os.environ.get('VERIF_TIMING'):
+        for w, nme in sorted(((r.get('wall_s', 0), sh.get('name')) for sh, r in zip(shards, results)), reverse=True)[:8]:
+            print('  slow shard %-40s %.1fs' % (nme, w))
     if unlisted:
         return 1
     if guards:
